@@ -26,13 +26,17 @@ Proved here, for EVERY configuration (either class, any grid, agent mix, overlap
   `WInv` (`pacman_reset_after_anything`);
 * witnesses (`decide`): the three things the brief asked to decide — see the section "Witnesses" and MERGE_NOTES.md.
 
-NOT proved (stated in full below, judged at run time on every step of the streams by `PM.specPM`):
-`pacman_reachable_WInvFloat` (the cell structure: every stored agent's position is that cell, no two occupants that may not
-overlap — in every reachable state), `pacman_step_keeps_WInv` and `pacman_step_noRaise` (a step from a state satisfying the
-explicit decidable hypothesis `PM.stepPre` returns and leaves a `WInv` world), `pacman_observations_in_space`.  Missing for
-them: the move lemmas of the C03 library are stated for `WInv` worlds with an ACTIVE mover; between the first overlap loop
-and the end of `PacmanSim.step` a dead pacman is still stored in its cell, so they have to be transported (e.g. through the
-world in which pacman is revived, as `RT.heal` does for the observers) or re-proved for `WInvFloat`.
+Proved since (round 6, workstream PAC2 — nothing of the former block "Stated, not proved" is left):
+
+* **C03** `pacman_reachable_WInvFloat`, `pacman_simIface_WInvFloat`, `pacman_reachable_positions_in_grid`: the cell structure
+  `PM.WInvFloat` and "every stored position is a grid cell" in EVERY reachable state, raising steps included
+  (Lemmas/PacmanFloat.lean: `grid.remove`, unchecked `grid.place`, the `DriftMoveActor` for ANY mover, the teleport);
+* **C02** `pacman_observations_in_space`: `get_obs` of every agent returns exactly the declared keys with values in the declared
+  spaces in every reachable state (Lemmas/PacmanObs.lean: the observer theorems from `WInvFloat` — no transport exists);
+* **C02 / C03** `pacman_step_keeps_WInv`, `pacman_step_noRaise`: a step from a `PM.stepPre` state returns and leaves `WInv` and
+  `teleSafe` (Lemmas/PacmanStep.lean: the invariant `PM.Mid` of the middle of a step);
+* **C02** `pacman_hist` (Props/PacmanHist.lean): under `PM.pmPre` the model's trace satisfies the judge `PM.specPM`;
+* `pacman_example_grid_cfgWF_teleSafe` (Props/PacmanGrid.lean): the packaged `example_grid`, all 366 agents, by `decide +kernel`.
 -/
 namespace Abmarl
 open World
@@ -322,7 +326,7 @@ states in any order: `PM.OpOK`), steps — ANY action dicts: in the declared spa
 walls, food or ids that do not exist; steps that returned and steps that RAISED, the history goes on with the state the raising
 step left —, observations, reward reads and done queries: once a reset has returned, the world has the static part it was
 built with and legal vitals: health within [0,1], an agent is active exactly when its health is positive, ammunition
-untouched, orientation one of the four directions.  (The cell structure is `pacman_reachable_WInvFloat`, not proved, below.) -/
+untouched, orientation one of the four directions.  (The cell structure is `pacman_reachable_WInvFloat`, below.) -/
 theorem pacman_reachable_inv (cfg : PM.Cfg) (w0 : World) (hcfg : CfgOK w0) (hA0 : AmmoC w0) (hN0 : NoAmmoC w0)
     (t0 : Tape) (ops : List PM.Op) (hops : ∀ op ∈ ops, PM.OpOK cfg w0 op) :
     let s := (PM.runOps cfg { ex := { w := w0, tape := t0 } } ops).2
@@ -559,26 +563,10 @@ theorem pacman_step_noRaise (cfg : PM.Cfg) (s : PM.St) (r : Ex.Ledger) (acts : L
     (hr : s.ex.rewards = some r) (hpre : PM.stepPre cfg s.ex.w r acts = true) : (PM.step cfg s acts).2 = none :=
   (pacman_step_keeps_WInv cfg s r acts hr hpre).1
 
-/-! ## Stated, not proved (judged at run time by `PM.specPM` on every call of the streams)
+/-! ## Formerly "Stated, not proved"
 
-```
-theorem pacman_reachable_WInvFloat (cfg w0 hcfg …) (ops) (hops) :
-    let s := (PM.runOps cfg { ex := { w := w0, tape := t0 } } ops).2
-    s.ex.rewards.isSome = true → PM.WInvFloat s.ex.w = true
-
-theorem pacman_step_keeps_WInv / pacman_step_noRaise (cfg : PM.Cfg) (s : PM.St) (r : Ex.Ledger) (acts : List (Aid × Int))
-    (hr : s.ex.rewards = some r) (hpre : PM.stepPre cfg s.ex.w r acts = true) :
-    (PM.step cfg s acts).2 = none ∧ (PM.step cfg s acts).1.ex.w.WInv = true ∧
-    PM.teleSafe cfg (PM.step cfg s acts).1.ex.w = true
-
-theorem pacman_observations_in_space (… as reach_observations_in_space, for cfg.observers = some ks …)
-```
-`PM.stepPre` is the EXPLICIT decidable hypothesis: `WInv`, pacman alive, everybody but pacman and the food alive, the
-documented agent mix `PM.cfgWF`, the teleport cells usable `PM.teleSafe`, in-space actions of learning agents incl. pacman
-with distinct keys, a full ledger.  The packaged layouts satisfy `cfgWF` and `teleSafe` after `reset`: checked on the real
-objects at run time (tag `ex-pre`/the judge's `stepPre` branch is taken in the packaged-layout cases of every run: those
-steps must not raise and must leave `WInv`).
--/
+`pacman_reachable_WInvFloat`, `pacman_observations_in_space`, `pacman_step_keeps_WInv`, `pacman_step_noRaise` are theorems
+above; `pacman_hist` is in Props/PacmanHist.lean, the packaged `example_grid` in Props/PacmanGrid.lean. -/
 
 /-! ## Witnesses -/
 
